@@ -394,8 +394,17 @@ def dispatchers_answer_through_the_primitives(ctx, rule):
                         if isinstance(nm, ast.Name):
                             assigned.setdefault(nm.id, []).append(st.value)
 
+        def is_primitive_ref(f, depth=0):
+            if isinstance(f, ast.Attribute):
+                return f.attr in PRIMITIVES
+            if isinstance(f, ast.IfExp):
+                return is_primitive_ref(f.body, depth) and is_primitive_ref(f.orelse, depth)
+            if isinstance(f, ast.Name) and depth < 3 and f.id in assigned:      # a local name bound to the chosen primitive
+                return all(is_primitive_ref(v, depth + 1) for v in assigned[f.id])
+            return False
+
         def from_primitive(e, depth=0):
-            if isinstance(e, ast.Call) and isinstance(e.func, ast.Attribute) and e.func.attr in PRIMITIVES:
+            if isinstance(e, ast.Call) and is_primitive_ref(e.func):
                 return True
             if isinstance(e, (ast.Tuple, ast.List)):
                 return all(from_primitive(x, depth) for x in e.elts)
@@ -412,4 +421,4 @@ def dispatchers_answer_through_the_primitives(ctx, rule):
                why='a request the dispatcher judges to be empty is not carried out (and its arguments are handed back instead of copies): '
                    'amounts below its threshold are not moved although they are representable in storage units',
                key=f"{q} answers without a primitive")
-    floor(ctx, 'returns of the transfer dispatchers', n, 3)
+    floor(ctx, 'returns of the transfer dispatchers', n, 2)
